@@ -17,7 +17,9 @@ for pid in ids:
         _tietext = (" Tie on translated code (DESIGN §4.3): the Go source of pkg/buffer%s is translated to Lean on every run "
                     "(go/translate -> Pw/Generated/Trans*.lean) and %d registered tie theorems (modules %s) prove, for every world, "
                     "that the translated functions compute what the model uses in their place; a change to that code re-checks these proofs."
-                    % ((" / copy.go" if "TieCopy" in _tie else "") + (" / error.go" if "TieError" in _tie else ""),
+                    % ((" / copy.go" if "TieCopy" in _tie else "") + (" / error.go" if "TieError" in _tie else "") +
+                       (" / writer.go, row.go" if "TieDataWriter" in _tie else "") + (" / cache.go" if "TieCache" in _tie else "") +
+                       (" / handshake.go" if "TieStartup" in _tie else ""),
                        len(p.get("tie_theorems", [])), ", ".join(_tie)))
         _tietech = " + tie theorems on Lean code translated from the Go source on every run"
     p = dict(p, level_text=p.get("level_text", "") + _tietext, technique=p.get("technique", "Lean 4 proof + differential correspondence") + _tietech)
@@ -32,7 +34,7 @@ m = dict(version=1, setup_cmd="./setup.sh",
                     baseline_off_cmd="cd /repo && GOFLAGS=-mod=mod GOPROXY=off GOSUMDB=off GOTOOLCHAIN=local go test -vet=off -count=1 ./...",
                     source_commits=hooks, add_only=True),
          engines=[dict(name="lean4+differential", path="lean/ go/harness go/extract go/translate check.py decide.py props.py", serves_properties=[c["property_id"] for c in checks],
-                       kind_free_text="Lean 4 model + theorems (lake project, core only), go/ast fact extractor regenerating Pw/Generated/Facts.lean, Go-to-Lean translator (go/translate) regenerating Pw/Generated/Trans*.lean from pkg/buffer, copy.go and error.go with tie theorems against the model, Go differential harness driving the real server in-process, Lean line-protocol driver evaluating model and property oracles")],
+                       kind_free_text="Lean 4 model + theorems (lake project, core only), go/ast fact extractor regenerating Pw/Generated/Facts.lean, Go-to-Lean translator (go/translate) regenerating Pw/Generated/Trans*.lean from pkg/buffer, copy.go, error.go, writer.go/row.go and cache.go with tie theorems against the model, Go differential harness driving the real server in-process, Lean line-protocol driver evaluating model and property oracles")],
          checks=checks,
          notes="All checks: ./check.py <id> <quick|thorough>; VERIF_SEED selects the PRNG seed. See DESIGN.md.",
          not_applicable=na)
